@@ -184,7 +184,7 @@ package redisemu
 //@ safetyprop C13
 //@ requires dscOK(dsc)
 //@ requires [C08,C16] locked: held
-//@ modifies redisDict.dirty
+//@ modifies dsc.ds.data->dirty
 //@ ensures dsc.ds.data.dirty
 //@ ensures held
 
